@@ -22,13 +22,19 @@ CONSTANTS Alpha,        \* set of code points and macro-symbols (see Chunk)
           Depths,       \* nesting depth of the enclosing collection (1 = top level)
           Unis,         \* allow_unicode values
           LBs,          \* subset of {"n", "r", "rn"}
-          Reqs          \* style requests: subset of {"none","single","double","literal","folded"}
+          Reqs,         \* style requests: subset of {"none","single","double","literal","folded"}
+          IndMax        \* > 0: the alphabet is Alpha plus every character of Scalars!Indicators (each one a symbol of its
+                        \* own); a text holds at most IndMax of them (at any position), the rest is from Alpha
 
 \* macro-symbols: lexemes that matter as a whole and that a bound on single characters would reach too late -
 \* the document markers as words inside a scalar
 DOTS == 900001
 DASHES == 900002
 Chunk(c) == IF c = DOTS THEN <<46, 46, 46>> ELSE IF c = DASHES THEN <<45, 45, 45>> ELSE <<c>>
+
+\* the alphabet: with IndMax > 0 it follows the literal sets of both sides of Scalars.tla
+Symbols == Alpha \cup (IF IndMax > 0 THEN Indicators ELSE {})
+NInd(t) == Cardinality({i \in 1 .. Len(t) : t[i] \in Indicators /\ t[i] \notin Alpha})
 
 VARIABLES text, cx, res
 vars == <<text, cx, res>>
@@ -79,12 +85,16 @@ Eval(t, c) ==
              d == r.diag \cup (IF "D4" \notin Fix /\ c.uni /\ s # "double" /\ \E i \in 1 .. Len(t) : t[i] = NEL
                                THEN {"nel-written-raw"} ELSE {})
              via == CHOOSE rp \in ReqPairs : Sty(rp) = s
+             \* every (style request, implicit[0]) for which this style is the one chosen: all of them are replayed
+             \* (a style is a function of the request as well as of the text; the binding checks it per request)
+             reqs == {rp \in ReqPairs : Sty(rp) = s}
          IN  [out |-> r.out, ok |-> r.ok, crash |-> r.crash, diag |-> d, open |-> r.open,
-              val |-> IF r.ok THEN <<>> ELSE r.val, kind |-> r.kind, req |-> via[1], impl |-> via[2]]]
+              val |-> IF r.ok THEN <<>> ELSE r.val, kind |-> r.kind, req |-> via[1], impl |-> via[2], reqs |-> reqs]]
 
 Init == text = <<>> /\ cx \in CtxSet /\ res = Eval(<<>>, cx)
 Next == /\ Len(text) < MaxLen
-        /\ \E c \in Alpha : LET t == text \o Chunk(c) IN Len(t) <= MaxLen /\ text' = t /\ res' = Eval(t, cx)
+        /\ \E c \in Symbols : LET t == text \o Chunk(c)
+                             IN  Len(t) <= MaxLen /\ NInd(t) <= IndMax /\ text' = t /\ res' = Eval(t, cx)
         /\ cx' = cx
 Spec == Init /\ [][Next]_vars
 
